@@ -33,11 +33,25 @@ func BuildEndpointPolicyTree(
 		existingEndpointPolicy := endpointPolicyTree.LookupDeclaredURL(endpoint.URL)
 		if existingEndpointPolicy != nil {
 			existingPolicy := *existingEndpointPolicy
-			existingPolicy[urltree.Method(endpoint.Method)] = EndpointPolicy{
+			newPolicy := EndpointPolicy{
 				URL:       endpoint.URL,
 				Remedies:  endpoint.Remedies,
 				Diagnosis: endpoint.Diagnosis,
 			}
+			// A further declaration of the same method and URL adds its
+			// plugins to the ones already declared instead of replacing them.
+			if declared, found := existingPolicy[urltree.Method(endpoint.Method)]; found {
+				newPolicy = EndpointPolicy{
+					URL: declared.URL,
+					Remedies: append(
+						append([]sharedConfig.Remedy{}, declared.Remedies...),
+						endpoint.Remedies...),
+					Diagnosis: append(
+						append([]sharedConfig.Diagnosis{}, declared.Diagnosis...),
+						endpoint.Diagnosis...),
+				}
+			}
+			existingPolicy[urltree.Method(endpoint.Method)] = newPolicy
 			endpointPolicy = &existingPolicy
 		} else {
 			endpointPolicy = &map[urltree.Method]EndpointPolicy{
